@@ -2,3 +2,4 @@ import MoreExec.Base.Sys
 import MoreExec.Model.Timeout
 import MoreExec.Props.C09
 import MoreExec.Props.C14
+import MoreExec.Props.C15
